@@ -686,6 +686,7 @@ pub enum Handles {
 pub struct StreamShared {
     q: RefCell<std::collections::VecDeque<u8>>,
     ended: Cell<bool>,
+    yields: Cell<u8>,
     waker: RefCell<Option<std::task::Waker>>,
 }
 
@@ -696,6 +697,13 @@ impl futures::Stream for HistStream {
     fn poll_next(self: std::pin::Pin<&mut Self>, cx: &mut std::task::Context<'_>) -> std::task::Poll<Option<u8>> {
         self.2.push(Ev::StreamPoll { src: self.1 });
         *self.0.waker.borrow_mut() = Some(cx.waker().clone());
+        if self.0.yields.get() > 0 && (!self.0.q.borrow().is_empty() || self.0.ended.get()) {
+            // cooperative yield: come back in the next dispatch
+            self.0.yields.set(self.0.yields.get() - 1);
+            self.2.push(Ev::StreamSelfWake { src: self.1 });
+            cx.waker().wake_by_ref();
+            return std::task::Poll::Pending;
+        }
         if let Some(v) = self.0.q.borrow_mut().pop_front() {
             return std::task::Poll::Ready(Some(v));
         }
@@ -1238,7 +1246,7 @@ impl Ctx {
             }
             Kind::Stream => {
                 let id = self.new_src(kind, script, K_STREAM);
-                let st = Rc::new(StreamShared { q: RefCell::new(Default::default()), ended: Cell::new(false), waker: RefCell::new(None) });
+                let st = Rc::new(StreamShared { q: RefCell::new(Default::default()), ended: Cell::new(false), yields: Cell::new(0), waker: RefCell::new(None) });
                 let src = calloop::stream::StreamSource::new(HistStream(st.clone(), id, sh.clone())).expect("StreamSource");
                 sh.push(Ev::Created { src: id, info: KInfo { kind: kind.clone(), fd: -1, deadline_ns: None, recycled_from: None, children: vec![] } });
                 let alive = self.srcs[id].alive.clone();
@@ -1675,6 +1683,17 @@ impl Ctx {
                     }
                 }));
                 self.finish_unit(r);
+            }
+            Op::StreamYield { src } => {
+                let Some(i) = pick(*src, self.by_kind[K_STREAM].len()) else { return };
+                let id = self.by_kind[K_STREAM][i];
+                let Handles::Stream { st } = &self.srcs[id].h else { return };
+                if st.yields.get() >= 2 {
+                    return;
+                }
+                sh.push(Ev::Op(ROp::StreamYield { src: id }));
+                st.yields.set(st.yields.get() + 1);
+                sh.push(Ev::OpRes(Res::Ok));
             }
             Op::StreamEnd { src } => {
                 let Some(i) = pick(*src, self.by_kind[K_STREAM].len()) else { return };
